@@ -39,7 +39,9 @@ type recCfg struct {
 	Trail            bool     `json:"trail"`
 	Acts             []string `json:"acts,omitempty"`
 	LBR, InputForget bool
-	Route            string `json:"route"`
+	Route            string  `json:"route"`
+	Reverse          bool    `json:"reverse,omitempty"` // direction="reverse"
+	XScale           float64 `json:"xscale,omitempty"`  // > 0: X multiplied by this (pre-activations far beyond +-88)
 }
 
 func (cf recCfg) gates() int { return map[string]int{"RNN": 1, "GRU": 3, "LSTM": 4}[cf.Op] }
@@ -53,6 +55,10 @@ func (cf recCfg) dt() ref.DT {
 func (cf recCfg) tensors() (X, W, R, B, h0, c0, P *ref.T) {
 	dt, g := cf.dt(), cf.gates()
 	X = recFill(dt, []int{cf.S, cf.B, cf.I}, 1)
+	if cf.XScale > 0 {
+		x0 := X
+		X = ref.Fill(dt, x0.Shape, func(i int) float64 { return x0.F(i) * cf.XScale })
+	}
 	W = recFill(dt, []int{1, g * cf.H, cf.I}, 2)
 	R = recFill(dt, []int{1, g * cf.H, cf.H}, 3)
 	if cf.HasB {
@@ -72,7 +78,10 @@ func (cf recCfg) tensors() (X, W, R, B, h0, c0, P *ref.T) {
 
 func (cf recCfg) attrs() ([]hx.Attr, ref.RecAttrs) {
 	as := []hx.Attr{hx.AInt("hidden_size", int64(cf.H))}
-	ra := ref.RecAttrs{Hidden: cf.H, Activations: cf.Acts, LBR: cf.LBR, InputForget: cf.InputForget}
+	ra := ref.RecAttrs{Hidden: cf.H, Activations: cf.Acts, LBR: cf.LBR, InputForget: cf.InputForget, Reverse: cf.Reverse}
+	if cf.Reverse {
+		as = append(as, hx.AStr("direction", "reverse"))
+	}
 	if cf.Acts != nil {
 		as = append(as, hx.AStrs("activations", cf.Acts...))
 	}
@@ -100,6 +109,11 @@ func (cf recCfg) nOut() int {
 }
 
 func (cf recCfg) cmp() hx.Cmp {
+	if cf.XScale > 0 {
+		// unbounded activations (relu) let intermediate values grow to 1e4..1e5 before they cancel: float32 rounding of
+		// those is visible in the result; the scaled cases look for overflow (Inf / NaN against a finite value)
+		return hx.Tol(2e-2, 2e-2)
+	}
 	if cf.dt() == ref.F64 {
 		return hx.Tol(1e-11, 1e-11)
 	}
@@ -136,7 +150,7 @@ func (cf recCfg) tags() []string {
 }
 
 func (cf recCfg) id() string {
-	return fmt.Sprintf("%s/%s/%s/s%db%di%dh%d/B%v h0%v c0%v P%v trail%v acts%v lbr%v if%v", cf.Op, cf.DT, cf.Route, cf.S, cf.B, cf.I, cf.H, cf.HasB, cf.HasH0, cf.HasC0, cf.HasP, cf.Trail, cf.Acts, cf.LBR, cf.InputForget)
+	return fmt.Sprintf("%s/%s/%s/s%db%di%dh%d/B%v h0%v c0%v P%v trail%v acts%v lbr%v if%v rev%v xs%v", cf.Op, cf.DT, cf.Route, cf.S, cf.B, cf.I, cf.H, cf.HasB, cf.HasH0, cf.HasC0, cf.HasP, cf.Trail, cf.Acts, cf.LBR, cf.InputForget, cf.Reverse, cf.XScale)
 }
 
 func (cf recCfg) job() opJob {
@@ -144,7 +158,7 @@ func (cf recCfg) job() opJob {
 	attrs, ra := cf.attrs()
 	exp, err := ref.Recurrent(cf.Op, X, W, R, B, h0, c0, P, ra)
 	dom := hx.DCompute
-	if cf.dt() != ref.F32 || cf.LBR || cf.InputForget {
+	if cf.dt() != ref.F32 || cf.LBR || cf.InputForget || cf.Reverse {
 		dom = hx.DRefuse // must be honoured (match the reference WITH the attribute) or refused
 	}
 	ins := cf.inputs(X, W, R, B, h0, c0, P)
@@ -508,10 +522,34 @@ func checkC06(c *hx.Checker) {
 					bad.Acts[pos] = odd
 					jb := bad.job()
 					jb.tags = append(jb.tags, "unknown-activation", fmt.Sprintf("odd-activation-at=%d", pos))
-					if odd == "Tanh" || odd == "Sigmoid" {
-						jb.dom = hx.DRefuse // the reference reads the ONNX spelling: honoured or refused
+					if odd == "Tanh" || odd == "Sigmoid" || odd == "softsign" {
+						jb.dom = hx.DRefuse // the reference knows the name: honoured or refused
 					}
 					jobs = append(jobs, jb)
+				}
+			}
+			// further ONNX activations (honoured or refused) and every supported one with inputs 300 times larger:
+			// pre-activations far beyond the range in which exp() is finite in float32
+			for pos := 0; pos < nAct; pos++ {
+				for _, name := range []string{"softplus", "Softplus", "softsign", "Softsign", "sigmoid", "tanh", "relu"} {
+					for _, xs := range []float64{0, 300} {
+						if xs == 0 && (name == "sigmoid" || name == "tanh" || name == "relu" || name == "softsign") {
+							continue // covered above
+						}
+						v := base
+						v.XScale = xs
+						v.Acts = make([]string, nAct)
+						for i := range v.Acts {
+							v.Acts[i] = []string{"sigmoid", "tanh", "relu"}[(i+1)%3]
+						}
+						v.Acts[pos] = name
+						jv := v.job()
+						jv.tags = append(jv.tags, "activation="+name, fmt.Sprintf("xscale=%v", xs))
+						if name != "sigmoid" && name != "tanh" && name != "relu" {
+							jv.dom = hx.DRefuse
+						}
+						jobs = append(jobs, jv)
+					}
 				}
 			}
 			for _, n := range []int{nAct - 1, nAct + 1} {
@@ -542,7 +580,16 @@ func checkC06(c *hx.Checker) {
 			ja.oc.Attrs = append(ja.oc.Attrs, hx.AFloats("activation_alpha", 0.2), hx.AFloats("activation_beta", 0.5))
 			ja.id += " activation_alpha/beta (unused by sigmoid/tanh/relu)"
 			jobs = append(jobs, ja)
-			for _, dir := range []string{"reverse", "bidirectional", "sideways"} {
+			// direction="reverse": honoured (Y keeps the time positions of X, Y_h is the state after time 0) or refused
+			for _, g := range [][4]int{{1, 2, 2, 2}, {2, 2, 2, 2}, {3, 1, 2, 3}, {4, 2, 1, 2}} {
+				for _, withState := range []bool{false, true} {
+					rv := recCfg{Op: op, DT: "float32", S: g[0], B: g[1], I: g[2], H: g[3], HasB: true, HasH0: withState, HasC0: withState && op == "LSTM", Route: "op", Reverse: true}
+					jv := rv.job()
+					jv.tags = append(jv.tags, "direction=reverse")
+					jobs = append(jobs, jv)
+				}
+			}
+			for _, dir := range []string{"bidirectional", "sideways"} {
 				jr := base.job()
 				jr.oc.Attrs = append(jr.oc.Attrs, hx.AStr("direction", dir))
 				jr.id += " direction=" + dir
